@@ -5,7 +5,8 @@
   services/signer/standard: the batch signing loop and the pre-check, with core/result.go and rules/service.go for the
   enumerator values; services/ruler/golang/runner.go: RunRules and the head of runRules, with services/ruler/service.go
   for the action constants; services/lister/standard/listaccounts.go; services/api/grpc/handlers/signer: the batch paths of
-  SignBeaconAttestations and Multisign);
+  SignBeaconAttestations and Multisign; services/ruler/golang/runner.go again: the per-entry dispatch of runRules and the
+  batch shortcut runRulesForMultipleBeaconAttestations);
   Dirk/Props/KernelsEq.lean proves each definition
   equal to the hand-written model function.  A kernel outside the translatable fragment appears as
   `kernelUntranslatable_<name>` instead, and KernelsEq.lean does not build.
@@ -976,6 +977,91 @@ def handlerShapeGuards : List String := [
   "Multisign: results, signatures := h.signer.Multisign(ctx, handlers.GenerateCredentials(ctx), accountNames, pubKeys, reqData)",
   "Multisign: for i := range results { switch results[i] { case core.ResultSucceeded: res.Responses[i].State = pb.ResponseState_SUCCEEDED; res.Responses[i].Signature = signatures[i] case core.ResultDenied: res.Responses[i].State = pb.ResponseState_DENIED case core.ResultFailed: res.Responses[i].State = pb.ResponseState_FAILED case core.ResultUnknown: res.Responses[i].State = pb.ResponseState_UNKNOWN } }",
   "Multisign: return res, nil"
+]
+
+/-- `runRules` (services/ruler/golang/runner.go), the `switch action` of the per-entry path, one line per `case` IN SOURCE ORDER: the VALUE of the action constant compared with
+    (services/ruler/service.go: declared with a string literal and assigned to nowhere in the repository's non-test files), the type `rulesData[i].Data` is
+    asserted to have, as written, and the method of `s.rules` whose answer becomes `results[i]`.  Every arm makes at most one assertion (of
+    `rulesData[i].Data`), calls at most one method, of `s.rules`, with `(ctx, metadata, <the asserted value>)`, and does not fall through;
+    `s.rules` is mentioned nowhere else in the function; model counterpart: `which of Dirk.onSign / onPropose / onAttest the endpoints Dirk.signGeneric, multisign / signProp / signAtt consult; Dirk.verdictRes`. -/
+def dispatchTableGen : List (String × String × String) := [
+  ("Sign", "*rules.SignData", "OnSign"),
+  ("Sign beacon proposal", "*rules.SignBeaconProposalData", "OnSignBeaconProposal"),
+  ("Sign beacon attestation", "*rules.SignBeaconAttestationData", "OnSignBeaconAttestation"),
+  ("Access account", "*rules.AccessAccountData", "OnListAccounts"),
+  ("Lock wallet", "*rules.LockWalletData", "OnLockWallet"),
+  ("Unlock wallet", "*rules.UnlockWalletData", "OnUnlockWallet"),
+  ("Lock account", "*rules.LockAccountData", "OnLockAccount"),
+  ("Unlock account", "*rules.UnlockAccountData", "OnUnlockAccount"),
+  ("Create account", "*rules.CreateAccountData", "OnCreateAccount")]
+
+/-- … the arms themselves: the value `results[i]` has when the arm is left, and whether it is left by `continue` (`true`: the statements after
+    the switch are skipped).  `some k`: the k-th line of `dispatchTableGen`; anything else: the `default` arm.
+    typeOk: the arm's type assertion holds; ruleVerdict: what the arm's rules method returns (`rulesResultValuesGen`) -/
+def dispatchArmGen (actionIdx : Option Nat) (typeOk : Bool) (ruleVerdict : Nat) : Nat × Bool :=
+  match actionIdx with
+  | some 0 => if !typeOk then (3, true) else (ruleVerdict, false)
+  | some 1 => if !typeOk then (3, true) else (ruleVerdict, false)
+  | some 2 => if !typeOk then (3, true) else (ruleVerdict, false)
+  | some 3 => if !typeOk then (3, true) else (ruleVerdict, false)
+  | some 4 => if !typeOk then (3, true) else (ruleVerdict, false)
+  | some 5 => if !typeOk then (3, true) else (ruleVerdict, false)
+  | some 6 => if !typeOk then (3, true) else (ruleVerdict, false)
+  | some 7 => if !typeOk then (3, true) else (ruleVerdict, false)
+  | some 8 => if !typeOk then (3, true) else (ruleVerdict, false)
+  | _ => (3, false)
+
+/-- … the `rules.Result` value (`rulesResultValuesGen`) position i of the returned list holds, for ONE entry; the list is created with every
+    position 0 and each position is visited once (`util.Scatter` over `len(rulesData)`, extents `for i := offset; i < offset+entries; i++`).
+    entryNil: `rulesData[i] == nil`; metadataErr: `s.assembleMetadata(…)` returns an error; the conversion after the switch: `if results[i] == rules.UNKNOWN { results[i] = rules.FAILED }`.  Tests in source order -/
+def dispatchEntryGen (entryNil metadataErr : Bool) (actionIdx : Option Nat) (typeOk : Bool) (ruleVerdict : Nat) : Nat :=
+  if entryNil then 0
+  else if metadataErr then 3
+  else
+    match dispatchArmGen actionIdx typeOk ruleVerdict with
+    | (v, true) => v
+    | (v, false) => if v = 0 then 3 else v
+
+/-- the guards of `runRules`, as written in the source, in order -/
+def dispatchEntryGuards : List String := [
+  "if rulesData[i] == nil { continue }",
+  "metadata, err := s.assembleMetadata(…); if err != nil { results[i] = rules.FAILED; continue }",
+  "switch action",
+  "case ruler.ActionSign: data, ok := rulesData[i].Data.(*rules.SignData); if !ok { results[i] = rules.FAILED; continue }; results[i] = s.rules.OnSign(ctx, metadata, data)",
+  "case ruler.ActionSignBeaconProposal: data, ok := rulesData[i].Data.(*rules.SignBeaconProposalData); if !ok { results[i] = rules.FAILED; continue }; results[i] = s.rules.OnSignBeaconProposal(ctx, metadata, data)",
+  "case ruler.ActionSignBeaconAttestation: data, ok := rulesData[i].Data.(*rules.SignBeaconAttestationData); if !ok { results[i] = rules.FAILED; continue }; results[i] = s.rules.OnSignBeaconAttestation(ctx, metadata, data)",
+  "case ruler.ActionAccessAccount: data, ok := rulesData[i].Data.(*rules.AccessAccountData); if !ok { results[i] = rules.FAILED; continue }; results[i] = s.rules.OnListAccounts(ctx, metadata, data)",
+  "case ruler.ActionLockWallet: data, ok := rulesData[i].Data.(*rules.LockWalletData); if !ok { results[i] = rules.FAILED; continue }; results[i] = s.rules.OnLockWallet(ctx, metadata, data)",
+  "case ruler.ActionUnlockWallet: data, ok := rulesData[i].Data.(*rules.UnlockWalletData); if !ok { results[i] = rules.FAILED; continue }; results[i] = s.rules.OnUnlockWallet(ctx, metadata, data)",
+  "case ruler.ActionLockAccount: data, ok := rulesData[i].Data.(*rules.LockAccountData); if !ok { results[i] = rules.FAILED; continue }; results[i] = s.rules.OnLockAccount(ctx, metadata, data)",
+  "case ruler.ActionUnlockAccount: data, ok := rulesData[i].Data.(*rules.UnlockAccountData); if !ok { results[i] = rules.FAILED; continue }; results[i] = s.rules.OnUnlockAccount(ctx, metadata, data)",
+  "case ruler.ActionCreateAccount: data, ok := rulesData[i].Data.(*rules.CreateAccountData); if !ok { results[i] = rules.FAILED; continue }; results[i] = s.rules.OnCreateAccount(ctx, metadata, data)",
+  "default: results[i] = rules.FAILED",
+  "if results[i] == rules.UNKNOWN { results[i] = rules.FAILED }"
+]
+
+/-- `runRulesForMultipleBeaconAttestations` (services/ruler/golang/runner.go), what the batch shortcut does, as canonical facts (locals printed as their roles): how the result list starts, what each refusal in the
+    preparation loop writes and how it leaves, what is handed to which method of `s.rules` (the only mention of `s.rules`), and what is done with its answer; model counterpart: `Dirk.onAttestBatch as consulted by Dirk.rulesKeyed / Dirk.signAtts`. -/
+def dispatchBatchGen : List String := [
+  "results: created len(rulesData) long, every position rules.UNKNOWN",
+  "missing account: if rulesData[i].AccountName == \"\" { results[i] = rules.FAILED; break }",
+  "metadata error: metadatas[i], err = s.assembleMetadata(…); if err != nil { results[i] = rules.FAILED; break }",
+  "type mismatch: data, ok := rulesData[i].Data.(*rules.SignBeaconAttestationData); if !ok { results[i] = rules.FAILED; break }",
+  "data: reqData := make([]*rules.SignBeaconAttestationData, len(rulesData)); reqData[i] = data (the value asserted to be *rules.SignBeaconAttestationData)",
+  "break: leaves the loop over the extent — the later entries of that extent are not examined and keep rules.UNKNOWN",
+  "early return: for i := range results { if results[i] == rules.FAILED { return results } } (the rule is not called; the other positions are returned as they are)",
+  "rule: return s.rules.OnSignBeaconAttestations(ctx, metadatas, reqData)",
+  "unknown: the list the rule returns is returned as it is — rules.UNKNOWN in it is NOT converted"
+]
+
+/-- the guards of `runRulesForMultipleBeaconAttestations`, as written in the source, in order -/
+def dispatchBatchGuards : List String := [
+  "missing account: if rulesData[i].AccountName == \"\" { results[i] = rules.FAILED; break }",
+  "metadata error: metadatas[i], err = s.assembleMetadata(…); if err != nil { results[i] = rules.FAILED; break }",
+  "type mismatch: data, ok := rulesData[i].Data.(*rules.SignBeaconAttestationData); if !ok { results[i] = rules.FAILED; break }",
+  "reqData[i] = data",
+  "early return: for i := range results { if results[i] == rules.FAILED { return results } } (the rule is not called; the other positions are returned as they are)",
+  "rule: return s.rules.OnSignBeaconAttestations(ctx, metadatas, reqData)"
 ]
 
 end Dirk.Gen
